@@ -56,8 +56,24 @@ _LOG = []
 _PATCHED = [False]
 
 
+def _tagged(orig, kind):
+    """Class-level logging wrapper: an instance the harness has tagged (obj._c10_tags[kind] = callback
+    code) logs the call instead of running the original.  The library therefore subscribes and
+    unsubscribes REAL bound methods (`self.nmt.on_heartbeat` is a fresh, equal-but-not-identical
+    object at every attribute access)."""
+    def wrapper(self, can_id, data, timestamp):
+        tags = getattr(self, "_c10_tags", None)
+        hv = tags.get(kind) if tags else None
+        if hv is None:
+            return orig(self, can_id, data, timestamp)
+        _LOG.append((hv, can_id, bytes(data), timestamp))
+    wrapper._c10_kind = kind
+    return wrapper
+
+
 def _patch_lss():
-    """LssMaster.on_message_received is subscribed by Network.__init__; log its invocations."""
+    """LssMaster.on_message_received is subscribed by Network.__init__; log its invocations.
+    The callbacks of nodes are logged through their classes (see _tagged)."""
     if _PATCHED[0]:
         return
     from canopen.lss import LssMaster
@@ -68,36 +84,51 @@ def _patch_lss():
         return orig(self, can_id, data, timestamp)
     LssMaster.on_message_received = on_message_received
 
-    # clients created by RemoteNode.add_sdo: their bound on_response is subscribed inside add_sdo,
-    # so it is logged through the class (only for clients the harness has tagged)
-    from canopen.sdo import SdoClient
-    orig_resp = SdoClient.on_response
-
-    def on_response(self, can_id, data, timestamp):
-        hv = getattr(self, "_c10_hv", None)
-        if hv is None:
-            return orig_resp(self, can_id, data, timestamp)
-        _LOG.append((hv, can_id, bytes(data), timestamp))
-    SdoClient.on_response = on_response
+    from canopen.sdo import SdoClient, SdoServer
+    from canopen.nmt import NmtBase, NmtMaster, NmtSlave
+    from canopen.emcy import EmcyConsumer
+    SdoClient.on_response = _tagged(SdoClient.on_response, "resp")
+    SdoServer.on_request = _tagged(SdoServer.on_request, "req")
+    NmtMaster.on_heartbeat = _tagged(NmtMaster.on_heartbeat, "hb")
+    NmtBase.on_command = _tagged(NmtBase.on_command, "cmd")
+    if "on_command" in vars(NmtSlave):
+        NmtSlave.on_command = _tagged(NmtSlave.on_command, "cmd")
+    if "on_command" in vars(NmtMaster):
+        NmtMaster.on_command = _tagged(NmtMaster.on_command, "cmd")
+    EmcyConsumer.on_emcy = _tagged(EmcyConsumer.on_emcy, "emcy")
     _PATCHED[0] = True
+
+
+class Recorder:
+    """Application callback given as a bound method: rec.on_frame is a new object at every access."""
+    def __init__(self, hv):
+        self.hv = hv
+
+    def on_frame(self, can_id, data, timestamp):
+        _LOG.append((self.hv, can_id, bytes(data), timestamp))
 
 
 class FakeBus:
     """Records what the library hands to python-can."""
     channel_info = "fake"
 
-    def __init__(self):
-        self.sent, self.periodic = [], []
-
     def send(self, msg, timeout=None):
         self.sent.append(msg)
 
+    def __init__(self, modify=False):
+        self.sent, self.periodic, self.calls, self.modify = [], [], [], modify
+
     def send_periodic(self, msg, period, *a, **k):
         self.periodic.append((msg, period))
+        calls = self.calls
+        calls.append([2, frame_obs(msg), period])
 
         class Task:
-            def stop(self): pass
-        return Task()
+            def stop(self): calls.append([1])
+
+        class ModTask(Task):
+            def modify_data(self, m): calls.append([0, frame_obs(m)])
+        return ModTask() if self.modify else Task()
 
     def shutdown(self): pass
 
@@ -118,11 +149,28 @@ class World:
         self.user = {}
         self.objs = {}
         self.chan_order = []     # node objects in order of their first add_sdo
+        self.connected = False
+        World._n += 1
+        self.channel = f"c10-{World._n}"
+        self.net.NOTIFIER_CYCLE = 0.005
+        self.net.NOTIFIER_SHUTDOWN_TIMEOUT = 1.0
+
+    _n = 0
 
     def ucb(self, u):
+        """even u: a bound method created afresh at every use; odd u: one function object"""
         if u not in self.user:
-            self.user[u] = _mkcb([0, u])
-        return self.user[u]
+            self.user[u] = Recorder([0, u]) if u % 2 == 0 else _mkcb([0, u])
+        r = self.user[u]
+        return r.on_frame if isinstance(r, Recorder) else r
+
+    def close(self):
+        if self.connected:
+            self.connected = False
+            try:
+                self.net.disconnect()
+            except Exception:
+                pass
 
     def node(self, trip):
         key = tuple(trip)
@@ -132,14 +180,13 @@ class World:
             base = [2, uid, nid, bool(local)]
             if local:
                 n = self.canopen.LocalNode(nid, od)
-                n.sdo.on_request = _mkcb(base + [4])
-                n.nmt.on_command = _mkcb(base + [3])
+                n.sdo._c10_tags = {"req": base + [4]}
+                n.nmt._c10_tags = {"cmd": base + [3]}
             else:
                 n = self.canopen.RemoteNode(nid, od)
-                n.sdo.on_response = _mkcb(base + [0])
-                n.nmt.on_heartbeat = _mkcb(base + [1])
-                n.emcy.on_emcy = _mkcb(base + [2])
-                n.nmt.on_command = _mkcb(base + [3])
+                n.sdo._c10_tags = {"resp": base + [0]}
+                n.nmt._c10_tags = {"hb": base + [1], "cmd": base + [3]}
+                n.emcy._c10_tags = {"emcy": base + [2]}
             n._trip = key
             self.objs[key] = n
         return self.objs[key]
@@ -164,14 +211,17 @@ class World:
         raise ValueError(h)
 
     def hv_of(self, cb):
-        hv = getattr(cb, "_hv", None)
-        if hv is not None:
-            return hv
-        if getattr(cb, "__self__", None) is self.net.lss:
+        owner = getattr(cb, "__self__", None)
+        if owner is None:
+            return getattr(cb, "_hv", [9])
+        if isinstance(owner, Recorder):
+            return owner.hv
+        if owner is self.net.lss:
             return [1]
-        hv = getattr(getattr(cb, "__self__", None), "_c10_hv", None)
-        if hv is not None:
-            return hv
+        tags = getattr(owner, "_c10_tags", None)
+        kind = getattr(getattr(cb, "__func__", None), "_c10_kind", None)
+        if tags and kind in tags:
+            return tags[kind]
         return [9]
 
     def dump(self):
@@ -214,9 +264,20 @@ class World:
             n = self.node(op[1])
             client = n.add_sdo(op[2], op[3])          # AttributeError for a LocalNode
             t = tuple(op[1])
-            client._c10_hv = [2, t[0], t[1], bool(t[2]), 5, len(n.sdo_channels) - 1]
+            client._c10_tags = {"resp": [2, t[0], t[1], bool(t[2]), 5, len(n.sdo_channels) - 1]}
             if t not in self.chan_order:
                 self.chan_order.append(t)
+        elif k == "reassoc":
+            n = self.node(op[1])
+            if net.nodes.get(n.id) is n:
+                n.associate_network(net)
+        elif k == "connect":
+            if not self.connected:
+                net.connect(interface="virtual", channel=self.channel)
+                self.connected = True
+        elif k == "disconnect":
+            self.connected = False
+            net.disconnect()
         else:
             raise ValueError(op)
 
@@ -235,16 +296,19 @@ def impl(c):
     if k == "hist":
         def f():
             w = World()
-            out = []
-            for op in c["ops"]:
-                del _LOG[:]
-                r = guarded(w.do, op)
-                if isinstance(r, Err):
-                    out.append(r)
-                else:
-                    out.append([[hv, cid, data, _canon_ts(ts)] for hv, cid, data, ts in _LOG])
-            out.append(w.dump())
-            return out
+            try:
+                out = []
+                for op in c["ops"]:
+                    del _LOG[:]
+                    r = guarded(w.do, op)
+                    if isinstance(r, Err):
+                        out.append(r)
+                    else:
+                        out.append([[hv, cid, data, _canon_ts(ts)] for hv, cid, data, ts in _LOG])
+                out.append(w.dump())
+                return out
+            finally:
+                w.close()
         return guarded(f)
     if k == "scan":
         def f():
@@ -269,6 +333,19 @@ def impl(c):
             net = canopen.Network(bus)
             t = net.send_periodic(c["id"], bytes(c["data"]), c["period"], c["remote"])
             return [frame_obs(t.msg), [[frame_obs(m), p] for m, p in bus.periodic]]
+        return guarded(f)
+    if k == "periodic_upd":
+        def f():
+            import canopen
+            bus = FakeBus(modify=c["modify"])
+            net = canopen.Network(bus)
+            t = net.send_periodic(c["id"], bytes(c["data"]), c["period"], c["remote"])
+            out = [frame_obs(t.msg), []]
+            for d in c["updates"]:
+                del bus.calls[:]
+                t.update(bytes(d))
+                out[1].append([frame_obs(t.msg), [list(x) for x in bus.calls]])
+            return out
         return guarded(f)
     raise ValueError(k)
 
@@ -354,6 +431,16 @@ def oracle_hist(c, o):
             must = True
         elif k == "add_sdo":
             must = ref.add_sdo((op[1][0], op[1][1], bool(op[1][2])), op[3])
+        elif k == "reassoc":
+            # attaching an attached node again must not change who receives what, except that a
+            # callback of it somebody had unsubscribed is subscribed again
+            obj = (op[1][0], op[1][1], bool(op[1][2]))
+            if ref.registered(obj):
+                for cid, h in ref.subscriptions_of(obj):
+                    ref.subscribe(cid, h)
+            must = True
+        elif k in ("connect", "disconnect"):
+            must = True                # the bus connection has no bearing on who is subscribed
         if must is True and got != []:
             return ("operation_failed" if isinstance(got, Err) else "spurious_delivery", f"step {i} {op}: {got!r}")
         if not isinstance(got, Err) and got != []:
@@ -363,7 +450,14 @@ def oracle_hist(c, o):
     return None
 
 
-def _frame_fail(c, fr, what):
+# update() assigns msg.data and python-can keeps the dlc given at construction, so after an update
+# with a payload of another length dlc != len(data) ON THE UNCHANGED TREE (notes/C10.md, Round 3).
+# The property text names id, data, remote flag and format; the dlc of updated frames is therefore
+# compared with the model only (which has the stale dlc) and not judged here.  Set to True to judge it.
+JUDGE_UPDATE_DLC = False
+
+
+def _frame_fail(c, fr, what, judge_dlc=True):
     cid, data, remote = c["id"], bytes(c["data"]), bool(c["remote"])
     if not isinstance(fr, list) or len(fr) != 6:
         return ("frame_missing", f"{what}: {fr!r}")
@@ -375,7 +469,7 @@ def _frame_fail(c, fr, what):
         return ("frame_extended_flag", f"{what}: extended={fr[3]} for id {cid:#x}")
     if fr[4]:
         return ("frame_error_flag", f"{what}: error frame for id {cid:#x}")
-    if not remote and (fr[1] != data or fr[5] != len(data)):
+    if not remote and (fr[1] != data or (judge_dlc and fr[5] != len(data))):
         # a remote frame has no data field: python-can discards the payload (documented in notes/C10.md)
         return ("frame_data", f"{what}: data {fr[1]!r} dlc {fr[5]} for {data!r}")
     return None
@@ -410,6 +504,20 @@ def oracle(c, o):
         if o[1][0][1] != c["period"]:
             return ("periodic_period", f"period {o[1][0][1]!r} for {c['period']}")
         return None
+    if k == "periodic_upd":
+        if isinstance(o, Err) or len(o) != 2 or len(o[1]) != len(c["updates"]):
+            return ("frame_missing", f"send_periodic({c['id']:#x}) + {len(c['updates'])} update(): {o!r}")
+        f = _frame_fail(c, o[0], "PeriodicMessageTask.msg")
+        if f: return f
+        for i, (d, (msg, calls)) in enumerate(zip(c["updates"], o[1])):
+            cu = dict(c, data=d)
+            f = _frame_fail(cu, msg, f"task.msg after update #{i + 1}", judge_dlc=JUDGE_UPDATE_DLC)
+            if f: return (f[0] + "_after_update", f[1])
+            for call in calls:
+                if call[0] in (0, 2):
+                    f = _frame_fail(cu, call[1], f"message handed to the bus by update #{i + 1}", judge_dlc=JUDGE_UPDATE_DLC)
+                    if f: return (f[0] + "_after_update", f[1])
+        return None
     raise ValueError(k)
 
 
@@ -441,6 +549,9 @@ def g_op(op):
         return f"ORecv (Build_frame {gz(c)} {gzlist(data)} {gbool(remote)} {gbool(ext)} {gbool(err)} {gz(ts)})"
     if k == "reset": return "OScanReset"
     if k == "add_sdo": return f"OAddSdo {g_obj(op[1])} {gz(op[2])} {gz(op[3])}"
+    if k == "reassoc": return f"OReassoc {g_obj(op[1])}"
+    if k == "connect": return "OConnect"
+    if k == "disconnect": return "ODisconnect"
     raise ValueError(op)
 
 
@@ -450,6 +561,9 @@ def coq_case(c):
     if k == "scan": return f"CScan {gzlist(c['ids'])}"
     if k == "send": return f"CSend {gbool(c['bus'])} {gz(c['id'])} {gzlist(c['data'])} {gbool(c['remote'])}"
     if k == "periodic": return f"CPeriodic {gz(c['id'])} {gzlist(c['data'])} {gz(c['period'])} {gbool(c['remote'])}"
+    if k == "periodic_upd":
+        return (f"CPeriodicUpd {gbool(c['modify'])} {gz(c['id'])} {gzlist(c['data'])} {gz(c['period'])} {gbool(c['remote'])} "
+                + glist([gzlist(u) for u in c["updates"]]))
     raise ValueError(k)
 
 
@@ -492,7 +606,8 @@ def gen_history(rng, nsteps, dirty):
     ts = 0
     n_sdo = 0
     weights = [("sub", 20), ("unsub1", 11), ("unsuball", 3), ("add", 9), ("del", 5), ("notify", 40), ("recv", 9),
-               ("reset", 1), ("resub2", 2), ("add_sdo", 3)]
+               ("reset", 1), ("resub2", 2), ("add_sdo", 3), ("reassoc", 3), ("bus", 2)]
+    connected = False
     if dirty:
         weights += [("tamper", 3)]
     names = [w[0] for w in weights]
@@ -552,6 +667,18 @@ def gen_history(rng, nsteps, dirty):
             ops.append(["recv", c, data, ts, remote, ext, err])
         elif k == "reset":
             ops.append(["reset"])
+        elif k == "reassoc":
+            # mostly an object that is on the network right now
+            added = [op[1] for op in ops if op[0] == "add"]
+            ops.append(["reassoc", rng.choice(added[-3:]) if added and rng.random() < 0.8 else rng.choice(objs)])
+        elif k == "bus":       # connect / disconnect alternate; sometimes an immediate reconnect
+            if sum(1 for op in ops if op[0] == "connect") >= 8:
+                continue
+            if connected and rng.random() < 0.5:
+                ops += [["disconnect"], ["connect"]]
+            else:
+                ops.append(["disconnect"] if connected else ["connect"])
+                connected = not connected
     return dict(kind="hist", ops=ops[:nsteps])
 
 
@@ -617,6 +744,23 @@ def gen_cases(rng, tier):
         for remote in (False, True):
             cases.append(dict(kind="send", bus=True, id=c, data=[1, 2, 3], remote=remote))
             cases.append(dict(kind="periodic", id=c, data=[1, 2, 3], period=1, remote=remote))
+    # periodic tasks whose payload is changed with update(): both flavours of bus task, same / other
+    # payload, same / other length, ids on both sides of 0x7FF
+    uid_pool = [0, 1, 0x123, 0x181, 0x7FE, 0x7FF, 0x800, 0x801, 0x12345, 0x1FFFFFFF]
+    for i in range({"quick": 120, "thorough": 600, "search": 200}[tier]):
+        cid = rng.choice(uid_pool) if i % 2 == 0 else rng.choice((rng.randrange(0x800), rng.randrange(0x800, 1 << 29)))
+        n = rng.randrange(9)
+        data = [rng.randrange(256) for _ in range(n)]
+        ups, cur = [], data
+        for _ in range(rng.choice((1, 1, 2, 3, 4))):
+            r = rng.random()
+            if r < 0.25: nxt = list(cur)
+            elif r < 0.7: nxt = [rng.randrange(256) for _ in range(len(cur))]
+            else: nxt = [rng.randrange(256) for _ in range(rng.randrange(9))]
+            ups.append(nxt)
+            cur = nxt
+        cases.append(dict(kind="periodic_upd", modify=(i % 4 < 2), id=cid, data=data, period=rng.randrange(1, 1000),
+                          remote=rng.random() < 0.1, updates=ups))
     cases.append(dict(kind="send", bus=False, id=0x601, data=[1], remote=False))
     cases.append(dict(kind="send", bus=True, id=0x123, data=list(range(12)), remote=False))
     if tier == "thorough":
@@ -673,6 +817,16 @@ def shrink(c):
     elif c["kind"] in ("send", "periodic"):
         if c["data"]:
             yield dict(c, data=c["data"][:-1])
+    elif c["kind"] == "periodic_upd":
+        ups = c["updates"]
+        for i in range(len(ups)):
+            if len(ups) > 1:
+                yield dict(c, updates=ups[:i] + ups[i + 1:])
+        for i in range(len(ups)):
+            if ups[i]:
+                yield dict(c, updates=ups[:i] + [ups[i][:-1]] + ups[i + 1:])
+        if c["data"]:
+            yield dict(c, data=c["data"][:-1])
 
 
 def neighbours(c, rng):
@@ -692,3 +846,7 @@ def neighbours(c, rng):
         for d in (-1, 0, 1):
             yield dict(c, id=c["id"] + d)
             yield dict(c, id=0x7FF + d)
+        if c["kind"] == "periodic":
+            for m in (False, True):
+                yield dict(kind="periodic_upd", modify=m, id=c["id"], data=c["data"], period=c["period"],
+                           remote=c["remote"], updates=[[1, 2, 3], [1, 2, 3], []])
